@@ -44,38 +44,57 @@ func diffResultsRepo(a, b *zoekt.SearchResult) (class, detail, repo string) {
 
 func diffResultsFile(a, b *zoekt.SearchResult) (class, detail, repo, name string) {
 	na, nb := ix.Normalise(a), ix.Normalise(b)
-	ma := map[string]ix.NFile{}
-	for _, f := range na {
-		if _, dup := ma[f.Key()]; dup {
-			return "duplicate file (left)", f.Repo + ":" + f.Name, f.Repo, f.Name
+	// The same path may exist twice in one repository with the same content on
+	// complementary branch sets (the generator makes such documents; two empty files are
+	// the usual case). Files are therefore compared as multisets per (repository, name,
+	// content): a different count on the two sides is a missing / extra file, equal
+	// counts are compared pairwise in a canonical order.
+	group := func(l []ix.NFile) (map[string][]ix.NFile, []string) {
+		m := map[string][]ix.NFile{}
+		var keys []string
+		for _, f := range l {
+			if _, ok := m[f.Key()]; !ok {
+				keys = append(keys, f.Key())
+			}
+			m[f.Key()] = append(m[f.Key()], f)
 		}
-		ma[f.Key()] = f
+		for _, fs := range m {
+			sort.SliceStable(fs, func(i, j int) bool {
+				return fmt.Sprint(fs[i].Branches, fs[i].Version) < fmt.Sprint(fs[j].Branches, fs[j].Version)
+			})
+		}
+		return m, keys
 	}
-	seen := map[string]bool{}
-	for _, f := range nb {
-		if seen[f.Key()] {
-			return "duplicate file (right)", f.Repo + ":" + f.Name, f.Repo, f.Name
-		}
-		seen[f.Key()] = true
-		x, ok := ma[f.Key()]
-		if !ok {
-			return "file only right", f.Repo + ":" + f.Name, f.Repo, f.Name
-		}
+	ma, ka := group(na)
+	mb, kb := group(nb)
+	for _, k := range kb {
+		fs, xs := mb[k], ma[k]
+		f := fs[0]
 		switch {
-		case !reflect.DeepEqual(x.Branches, f.Branches):
-			return "branches differ", fmt.Sprintf("%s:%s %v vs %v", f.Repo, f.Name, x.Branches, f.Branches), f.Repo, f.Name
-		case x.Language != f.Language:
-			return "language differs", fmt.Sprintf("%s:%s %q vs %q", f.Repo, f.Name, x.Language, f.Language), f.Repo, f.Name
-		case x.SubRepo != f.SubRepo || x.SubPath != f.SubPath:
-			return "sub-repository differs", fmt.Sprintf("%s:%s", f.Repo, f.Name), f.Repo, f.Name
-		case x.Version != f.Version:
-			return "version differs", fmt.Sprintf("%s:%s %q vs %q", f.Repo, f.Name, x.Version, f.Version), f.Repo, f.Name
-		case !reflect.DeepEqual(x.Ranges, f.Ranges) || !reflect.DeepEqual(x.NameRanges, f.NameRanges):
-			return "matches differ", fmt.Sprintf("%s:%s %v/%v vs %v/%v", f.Repo, f.Name, x.Ranges, x.NameRanges, f.Ranges, f.NameRanges), f.Repo, f.Name
+		case len(xs) < len(fs):
+			return "file only right", f.Repo + ":" + f.Name, f.Repo, f.Name
+		case len(xs) > len(fs):
+			return "file only left", f.Repo + ":" + f.Name, f.Repo, f.Name
+		}
+		for i := range fs {
+			x, f := xs[i], fs[i]
+			switch {
+			case !reflect.DeepEqual(x.Branches, f.Branches):
+				return "branches differ", fmt.Sprintf("%s:%s %v vs %v", f.Repo, f.Name, x.Branches, f.Branches), f.Repo, f.Name
+			case x.Language != f.Language:
+				return "language differs", fmt.Sprintf("%s:%s %q vs %q", f.Repo, f.Name, x.Language, f.Language), f.Repo, f.Name
+			case x.SubRepo != f.SubRepo || x.SubPath != f.SubPath:
+				return "sub-repository differs", fmt.Sprintf("%s:%s", f.Repo, f.Name), f.Repo, f.Name
+			case x.Version != f.Version:
+				return "version differs", fmt.Sprintf("%s:%s %q vs %q", f.Repo, f.Name, x.Version, f.Version), f.Repo, f.Name
+			case !reflect.DeepEqual(x.Ranges, f.Ranges) || !reflect.DeepEqual(x.NameRanges, f.NameRanges):
+				return "matches differ", fmt.Sprintf("%s:%s %v/%v vs %v/%v", f.Repo, f.Name, x.Ranges, x.NameRanges, f.Ranges, f.NameRanges), f.Repo, f.Name
+			}
 		}
 	}
-	for k, f := range ma {
-		if !seen[k] {
+	for _, k := range ka {
+		if _, ok := mb[k]; !ok {
+			f := ma[k][0]
 			return "file only left", f.Repo + ":" + f.Name, f.Repo, f.Name
 		}
 	}
